@@ -226,6 +226,12 @@ impl<P: BigintCtxParams> Ctx for BigintCtx<P> {
         BigUintX::new(gen.gen_biguint_below(&self.params.exp_modulus().0))
     }
     fn rnd_plaintext(&self) -> Self::P {
+        #[cfg(strand_verif)]
+        {
+            if let Some(b) = crate::verif_hooks::take_exp_bytes() {
+                return BigUintP(BigUint::from_bytes_be(&b));
+            }
+        }
         // the plaintext space is 0..=q-2: q-1 cannot be encoded
         let mut gen = StrandRng;
         let one: BigUint = One::one();
